@@ -1010,3 +1010,15 @@ class P(Prop):
         if case.get("kind") == "cfg":
             return impl_out.get("err") == "internal:TypeError" and any("StrategyFactory" in w for w in (impl_out.get("_rec") or {}).get("where", []))
         return impl_out.get("err") == "internal:TypeError" and "string indices must be integers" in ((impl_out.get("_rec") or {}).get("stderr_tail", ""))
+
+
+# ---- command-line glue cases: the real `picked_group_fdr.main(argv)` in-process (recorders around every method's
+# inference call) against the composed Lean model PgFdr.Cli.cliOutcome (driver op "cli"); the oracle checks the written
+# tables, the ingested lists and the arguments of every call directly (harness/cli_model.py, notes/cli-model.md)
+import cli_model as _cm  # noqa: E402
+
+_BaseP = P
+
+
+class P(_cm.CliMixin, _BaseP):
+    cli_model_share = 0.04
